@@ -17,21 +17,24 @@ CONSTANTS MaxSurf,      \* bound on the number of surfaces including the object
           Media,        \* admissible media tokens ("mirror" = reflecting surface)
           Conics, Tilts, Decs, Coefs, Waves,
           MaxWl, MaxPk, Kinds,
-          Extras,       \* subset of {"scale", "saveload"}: which extra calls are explored
+          Extras,       \* subset of {"scale", "saveload", "insert"}: which extra calls are explored
           Base          \* initial prescription (<<>> = empty lens)
 INF == 1000000                                  \* stands for +infinity
 VARIABLES surf,     \* sequence of surface records, surf[1] is the object
           lastT,    \* SurfaceFactory.last_thickness
           wl,       \* sequence of [v, primary]
           pk,       \* pickups: sequence of [src, attr, tgt, scale, off]
+          tainted,  \* TRUE once a surface was inserted in the middle or removed: placement
+                    \* (vertices, media chain) then has no documented semantics; only the
+                    \* stop and wavelength clauses are stated for such histories
           hist      \* calls so far (behaviour export; hidden from MC by VIEW)
-vars == <<surf, lastT, wl, pk, hist>>
-View == <<surf, lastT, wl, pk>>
+vars == <<surf, lastT, wl, pk, tainted, hist>>
+View == <<surf, lastT, wl, pk, tainted>>
 N == Len(surf)
 
 Call(op, args) == hist' = Append(hist, [op |-> op, a |-> args])
 
-Init == /\ surf = Base.surf /\ lastT = Base.lastT /\ wl = Base.wl /\ pk = <<>> /\ hist = <<>>
+Init == /\ surf = Base.surf /\ lastT = Base.lastT /\ wl = Base.wl /\ pk = <<>> /\ tainted = FALSE /\ hist = <<>>
 
 --------------------------------------------------------------------------
 (* Construction: SurfaceGroup.add_surface / SurfaceFactory.create_surface   *)
@@ -52,7 +55,7 @@ AddSurface(kind, R, k, c1, t, med, stop, dx, rx) ==
      /\ (i > 1 => t # INF)
      /\ (kind = "std" => c1 = 0)
      /\ (R = INF /\ kind = "std" => k = 0)        \* a plane has no conic
-     /\ surf' = Append(old, s) /\ lastT' = t /\ UNCHANGED <<wl, pk>>
+     /\ surf' = Append(old, s) /\ lastT' = t /\ UNCHANGED <<wl, pk, tainted>>
      /\ Call("add_surface", [kind |-> kind, R |-> R, k |-> k, c1 |-> c1, t |-> t,
                              med |-> med, stop |-> stop, dx |-> dx, rx |-> rx])
 
@@ -63,10 +66,10 @@ IsPlane(s) == s.kind = "std" /\ s.R = INF
 SetRadiusF(sf, k, R) == [sf EXCEPT ![k].R = R]
 SetRadius(k, R) == /\ k \in 2..N
                    /\ surf' = SetRadiusF(surf, k, R)
-                   /\ UNCHANGED <<lastT, wl, pk>> /\ Call("set_radius", [k |-> k, v |-> R])
+                   /\ UNCHANGED <<lastT, wl, pk, tainted>> /\ Call("set_radius", [k |-> k, v |-> R])
 SetConic(k, c) == /\ k \in 2..N /\ ~IsPlane(surf[k])
                   /\ surf' = [surf EXCEPT ![k].k = c]
-                  /\ UNCHANGED <<lastT, wl, pk>> /\ Call("set_conic", [k |-> k, v |-> c])
+                  /\ UNCHANGED <<lastT, wl, pk, tainted>> /\ Call("set_conic", [k |-> k, v |-> c])
 \* thickness after surface k (k = 1 is the object distance, finite objects only)
 ThicknessOf(sf, k) == sf[k+1].z - sf[k].z
 SetThicknessF(sf, k, v) ==
@@ -79,22 +82,22 @@ SetThickness(k, v) ==
   /\ k \in 1..(N-1) /\ N >= 2
   /\ (k = 1 => surf[1].z # -INF)
   /\ surf' = SetThicknessF(surf, k, v)
-  /\ UNCHANGED <<lastT, wl, pk>> /\ Call("set_thickness", [k |-> k, v |-> v])
+  /\ UNCHANGED <<lastT, wl, pk, tainted>> /\ Call("set_thickness", [k |-> k, v |-> v])
 \* (the object surface has one medium: its "pre" is by definition its "post")
 SetIndexF(sf, k, m) == IF k = 1 THEN [sf EXCEPT ![1].pre = m, ![1].post = m, ![2].pre = m]
                        ELSE [sf EXCEPT ![k].post = m, ![k+1].pre = m]
 SetIndex(k, m) == /\ k \in 1..(N-1) /\ m # "mirror"
                   /\ surf' = SetIndexF(surf, k, m)
-                  /\ UNCHANGED <<lastT, wl, pk>> /\ Call("set_index", [k |-> k, v |-> m])
+                  /\ UNCHANGED <<lastT, wl, pk, tainted>> /\ Call("set_index", [k |-> k, v |-> m])
 SetCoeff(k, c) == /\ k \in 2..N /\ surf[k].kind = "asph"
                   /\ surf' = [surf EXCEPT ![k].c1 = c]
-                  /\ UNCHANGED <<lastT, wl, pk>> /\ Call("set_asphere_coeff", [k |-> k, v |-> c])
+                  /\ UNCHANGED <<lastT, wl, pk, tainted>> /\ Call("set_asphere_coeff", [k |-> k, v |-> c])
 SetTilt(k, a) == /\ k \in 2..N
                  /\ surf' = [surf EXCEPT ![k].rx = a]
-                 /\ UNCHANGED <<lastT, wl, pk>> /\ Call("set_tilt", [k |-> k, v |-> a])
+                 /\ UNCHANGED <<lastT, wl, pk, tainted>> /\ Call("set_tilt", [k |-> k, v |-> a])
 SetDecentre(k, a) == /\ k \in 2..N
                      /\ surf' = [surf EXCEPT ![k].dx = a]
-                     /\ UNCHANGED <<lastT, wl, pk>> /\ Call("set_decentre", [k |-> k, v |-> a])
+                     /\ UNCHANGED <<lastT, wl, pk, tainted>> /\ Call("set_decentre", [k |-> k, v |-> a])
 
 --------------------------------------------------------------------------
 (* Wavelengths: WavelengthGroup.add_wavelength                               *)
@@ -102,7 +105,7 @@ AddWavelength(v, p) ==
   /\ Len(wl) < MaxWl
   /\ wl' = Append(IF p THEN [j \in 1..Len(wl) |-> [wl[j] EXCEPT !.primary = FALSE]] ELSE wl,
                   [v |-> v, primary |-> p \/ wl = <<>>])
-  /\ UNCHANGED <<surf, lastT, pk>> /\ Call("add_wavelength", [v |-> v, p |-> p])
+  /\ UNCHANGED <<surf, lastT, pk, tainted>> /\ Call("add_wavelength", [v |-> v, p |-> p])
 
 --------------------------------------------------------------------------
 (* Pickups: PickupManager.add applies once and remembers; Optic.update()    *)
@@ -129,10 +132,10 @@ PickupOK(p) ==
         (pk[j].tgt # p.src /\ pk[j].src # p.tgt /\ pk[j].tgt # p.tgt)
 PickupAdd(p) == /\ Len(pk) < MaxPk /\ PickupOK(p)
                 /\ surf' = ApplyPickupF(surf, p) /\ pk' = Append(pk, p)
-                /\ UNCHANGED <<lastT, wl>> /\ Call("pickup_add", p)
+                /\ UNCHANGED <<lastT, wl, tainted>> /\ Call("pickup_add", p)
 Update == /\ pk # <<>>
           /\ surf' = ApplyAllF(surf, pk)
-          /\ UNCHANGED <<lastT, wl, pk>> /\ Call("update", [x |-> 0])
+          /\ UNCHANGED <<lastT, wl, pk, tainted>> /\ Call("update", [x |-> 0])
 
 --------------------------------------------------------------------------
 (* Optic.scale_system(s): radii, thicknesses (C07).  s is a positive integer *)
@@ -143,12 +146,30 @@ ScaleF(sf, s) == [j \in 1..Len(sf) |->
 ScaleSystem(s) == /\ N >= 3
                   /\ \A j \in 1..N : surf[j].kind = "std"   \* documented to scale planes/conics only
                   /\ surf' = ScaleF(surf, s)
-                  /\ UNCHANGED <<lastT, wl, pk>> /\ Call("scale_system", [v |-> s])
+                  /\ UNCHANGED <<lastT, wl, pk, tainted>> /\ Call("scale_system", [v |-> s])
 
 (* to_dict / from_dict, save / load: the prescription is unchanged and the   *)
 (* reloaded lens continues the same history (C19).                            *)
 SaveLoad(how) == /\ N >= 3 /\ wl # <<>>
-                 /\ UNCHANGED <<surf, lastT, wl, pk>> /\ Call("save_load", [how |-> how])
+                 /\ UNCHANGED <<surf, lastT, wl, pk, tainted>> /\ Call("save_load", [how |-> how])
+
+--------------------------------------------------------------------------
+(* Insertion in the middle and removal (SurfaceGroup.add_surface with an      *)
+(* index inside the lens, remove_surface): only the stop flags, the surface   *)
+(* count and the wavelengths are specified.                                    *)
+Blank(stop) == [z |-> 0, R |-> INF, k |-> 0, c1 |-> 0, kind |-> "std", pre |-> "air", post |-> "air",
+                stop |-> stop, refl |-> FALSE, dx |-> 0, rx |-> 0]
+InsertSurface(i, stop) ==
+  LET old == IF stop THEN [j \in 1..N |-> [surf[j] EXCEPT !.stop = FALSE]] ELSE surf IN
+  /\ "insert" \in Extras /\ N >= 3 /\ N < MaxSurf /\ i \in 2..N
+  /\ surf' = SubSeq(old, 1, i - 1) \o <<Blank(stop)>> \o SubSeq(old, i, N)
+  /\ tainted' = TRUE /\ pk' = <<>> /\ lastT' = 0 /\ UNCHANGED wl
+  /\ Call("insert_surface", [i |-> i, stop |-> stop])
+RemoveSurface(i) ==
+  /\ "insert" \in Extras /\ N >= 4 /\ i \in 2..(N-1)
+  /\ surf' = SubSeq(surf, 1, i - 1) \o SubSeq(surf, i + 1, N)
+  /\ tainted' = TRUE /\ pk' = <<>> /\ UNCHANGED <<lastT, wl>>
+  /\ Call("remove_surface", [i |-> i])
 
 --------------------------------------------------------------------------
 Build == \E kind \in Kinds, R \in Radii, k \in Conics, c1 \in Coefs,
@@ -166,10 +187,13 @@ Pick  == \/ \E src \in 1..MaxSurf, tgt \in 1..MaxSurf, attr \in {"radius", "coni
                sc \in {1, -1, 2}, off \in {0, 8} :
                PickupAdd([src |-> src, attr |-> attr, tgt |-> tgt, scale |-> sc, off |-> off])
          \/ Update
-Misc  == \/ "scale" \in Extras /\ \E s \in {2, 3} : ScaleSystem(s)
+Misc  == \/ \E i \in 1..MaxSurf, st \in BOOLEAN : InsertSurface(i, st)
+         \/ \E i \in 1..MaxSurf : RemoveSurface(i)
+         \/ "scale" \in Extras /\ \E s \in {2, 3} : ScaleSystem(s)
          \/ "saveload" \in Extras /\ \E how \in {"dict", "file"} : SaveLoad(how)
 NextBuild == Build
-NextEdit  == N >= 3 /\ (Edit \/ Pick \/ Misc)
+NextEdit  == N >= 3 /\ ((~tainted /\ (Edit \/ Pick)) \/ Misc
+                       \/ (tainted /\ \E v \in Waves, p \in BOOLEAN : AddWavelength(v, p)))
 Next == Build \/ NextEdit
 SpecBuild == Init /\ [][NextBuild]_vars
 SpecEdit  == Init /\ [][NextEdit]_vars
@@ -177,11 +201,11 @@ Spec      == Init /\ [][Next]_vars
 
 --------------------------------------------------------------------------
 (* The structural clauses of C01                                             *)
-FirstAtZero   == N >= 2 => surf[2].z = 0
-MediumChain   == \A j \in 2..N : surf[j].pre = surf[j-1].post
+FirstAtZero   == (~tainted /\ N >= 2) => surf[2].z = 0
+MediumChain   == ~tainted => \A j \in 2..N : surf[j].pre = surf[j-1].post
 AtMostOneStop == Cardinality({j \in 1..N : surf[j].stop}) <= 1
 OnePrimary    == wl # <<>> => Cardinality({j \in 1..Len(wl) : wl[j].primary}) = 1
-ObjectBehind  == N >= 2 => surf[1].z <= 0
+ObjectBehind  == (~tainted /\ N >= 2) => surf[1].z <= 0
 \* informational (not a C01 clause): set_index before a mirror leaves the
 \* mirror's material_post stale
 MirrorKeeps   == \A j \in 2..N : surf[j].refl => surf[j].post = surf[j].pre
